@@ -998,7 +998,16 @@ def r11_request_not_rewritten(ctx):
     ctx.check(R, "request-accessor-census", n >= 4, "calls on http::Request under the dispatch path: %d" % n, None, nontrivial=False)
 
 
-RULES = [("C09.R11", r11_request_not_rewritten), ("C09.R9", r9_path_segments_decoded_once), ("C09.R10", r10_wildcard_gets_the_segments), ("C09.R8", r8_media_type_normalised), ("C09.R7", r7_every_framing_accepted), ("C09.R1", r1_decoder_inputs), ("C09.R2", r2_primitive_table), ("C09.R3", r3_request_context), ("C09.R4", r4_no_shared_channel),
+def r12_only_dot_segments_are_refused(ctx):
+    """`any string a client encodes into a path segment reaches the handler unchanged`: the only decoded segments the router refuses are
+    exactly `.` and `..`.  This is C03.R2, re-evaluated here (adversary change C09-M: the dot test became `bytes().all(|b| b == b'.')`, so
+    `...` -- a legal variable value -- was answered 400)."""
+    from . import c03
+    from .lib_c01 import Renamed
+    c03.r2_dot_segments(Renamed(ctx, "C09.R12", "a decoded path segment is refused only when it equals `.` or `..`; every other value is handed on"))
+
+
+RULES = [("C09.R12", r12_only_dot_segments_are_refused), ("C09.R11", r11_request_not_rewritten), ("C09.R9", r9_path_segments_decoded_once), ("C09.R10", r10_wildcard_gets_the_segments), ("C09.R8", r8_media_type_normalised), ("C09.R7", r7_every_framing_accepted), ("C09.R1", r1_decoder_inputs), ("C09.R2", r2_primitive_table), ("C09.R3", r3_request_context), ("C09.R4", r4_no_shared_channel),
          ("C09.R5", r5_multipart_boundary), ("C09.R6", r6_positional_arguments)]
 
 _F5_NOW = """        let boundary =
